@@ -27,7 +27,7 @@ func init() {
 			"(with the features they depend on) and/or new features); distinct = shape + both feature sets; non-trivial = at least one shared ID whose upper version has different tags",
 		Assumptions: []string{"upper versions keep the geometry of the base version (each layer is a self-contained valid world)"},
 		Quick:       400, Thorough: 40000,
-		Required: []string{"growing_upper_layer", "shape_overlapping", "shape_disjoint", "shape_upper-subset-of-base", "shape_upper-superset-of-base", "shape_three-layers",
+		Required: []string{"ids_differing_only_in_namespace", "growing_upper_layer", "shape_overlapping", "shape_disjoint", "shape_upper-subset-of-base", "shape_upper-superset-of-base", "shape_three-layers",
 			"shared_ids", "shared_id_differs", "restricted_enumerations", "shared_upper_matches_query_base_does_not", "shared_base_matches_query_upper_does_not"},
 		Run: func(c *core.Ctx) {
 			r := c.R
@@ -35,6 +35,33 @@ func init() {
 			c.Count("shape_" + shape)
 			g := wm.NewGen(r.Fork(), wm.DefaultGen())
 			baseSpecs := g.World()
+			// ids that differ from another feature's only in the namespace (way 42 and relation 42
+			// both give an area 42; a node and a UPRN share numbers): free-standing tagged points and
+			// relations with the type and value of an existing feature, in another namespace
+			if r.Chance(0.5) {
+				var twins []*wm.Spec
+				for _, s := range baseSpecs {
+					if len(twins) >= 3 || !r.Chance(0.3) {
+						continue
+					}
+					id := b6.FeatureID{Type: s.ID.Type, Namespace: "example.com/twin", Value: s.ID.Value}
+					switch s.ID.Type {
+					case b6.FeatureTypePoint:
+						t := g.Point(1)
+						t.ID = id
+						twins = append(twins, t)
+					case b6.FeatureTypeRelation:
+						twins = append(twins, &wm.Spec{ID: id, Tags: g.RandomTags(1), Members: []b6.RelationMember{{ID: baseSpecs[0].ID, Role: "twin"}}})
+					}
+				}
+				for _, t := range twins {
+					g.Reserve(t.ID)
+					baseSpecs = append(baseSpecs, t)
+				}
+				if len(twins) > 0 {
+					c.Count("ids_differing_only_in_namespace")
+				}
+			}
 			byID := map[b6.FeatureID]*wm.Spec{}
 			for _, s := range baseSpecs {
 				byID[s.ID] = s
